@@ -54,6 +54,16 @@ Print Assumptions C17_reflection_refused.
 Theorem C17_old_reflection_accepted : forall (dh : N -> N -> N) (b : party) (e : N), accepts_old dh b (reflected dh b e) = true.
 Proof. exact old_reflection_accepted. Qed.
 
+(* The frame counter inside the nonce is a machine integer of width w: two frames of one direction share a counter value only at
+   a distance of 2^w frames - never, for the 64 bits of the implementation, in the life of a connection; a counter kept in 32 bits
+   is back at a recorded frame's value after 2^32 frames (C17_counter_of_width_32_comes_back; the harness ages a real connection to
+   that point through a hook and replays the first data frame there). *)
+Theorem C17_counter_distinct_within_width : forall w s i j : N, (i < j)%N -> (j - i < 2 ^ w)%N -> ctr w s i <> ctr w s j.
+Proof. exact counter_distinct_within_width. Qed.
+Print Assumptions C17_counter_distinct_within_width.
+Theorem C17_counter_of_width_32_comes_back : forall s k : N, ctr 32 s k = ctr 32 s (k + 2 ^ 32).
+Proof. exact counter_of_width_32_comes_back. Qed.
+
 Example C17_nonvacuous :
   read_all 4 1 (mkRd 0 []) (write_all 4 1 0 [[1;2;3;4;5]%N; []; [6]%N]) [3; 3; 1; 5]%nat = ([1;2;3;4;5;6]%N, true) /\
   snd (read_all 4 1 (mkRd 0 []) (apply_fault (Swap 0) (write_all 4 1 0 [[1;2;3;4;5]%N; [6]%N])) [9; 9; 9]%nat) = false.
